@@ -53,12 +53,13 @@ func checkC13(r *Run) propMeta {
 		switch {
 		case a[m] == "" || b[m] == "":
 			r.Fail("C13-R2-sibling-agreement", construct, token.NoPos, "method %s exists on only one of the two bitmap siblings", m)
-		case a[m] != b[m]:
+		case normShape(m, a[m]) != normShape(m, b[m]):
 			r.Fail("C13-R2-sibling-agreement", construct, token.NoPos, "the siblings implement %s with different shapes: bitmap32 %s vs bitmap64 %s", m, a[m], b[m])
 		default:
 			r.Pass("C13-R2-sibling-agreement", construct, token.NoPos, "same shape: %s", a[m])
 		}
 	}
+	checkWidenBeforeArithmetic(r, p)
 	checkWrapper(r, p, "threadSafeDuplex", "Duplex", "ThreadSafeDuplex")
 	checkWrapper(r, p, "threadSafeSimplex", "Simplex", "ThreadSafeSimplex")
 	checkValueReceiverWrites(r, p)
@@ -230,6 +231,17 @@ func checkBitmapType(r *Run, p *packages.Package, tname string) map[string]strin
 					r.Fail("C13-R2-native-op", construct, fd.Pos(), "%s.%s must be implemented by bitmap.%s but calls bitmap.%s", tname, name, want, got)
 				}
 				shape = append(shape, "native:"+got)
+				// the operand of the native call, when it comes from a helper of the package that turns any operand
+				// into a bitmap: that helper decides what an operand of another implementation contributes
+				if hd := operandHelperOf(p, fd, onOwnBitmap); hd != nil {
+					good, why := operandHelperVerdict(r, p, hd, tname, bitmapField)
+					if good {
+						r.Pass("C13-R2-fallback", construct+":fallback", fd.Pos(), "copy-then-native (%s)", why)
+					} else {
+						r.Fail("C13-R2-fallback", construct+":fallback", hd.Pos(), "%s runs bitmap.%s against what %s returns for the operand, and that is not the operand's set: %s", name, got, hd.Name.Name, why)
+					}
+					shape = append(shape, "fallback:copy-then-native")
+				}
 			}
 		} else {
 			if !exclusive {
@@ -480,6 +492,36 @@ func fallbackKind(p *packages.Package, methods map[string]*ast.FuncDecl, br type
 						}
 						if sel.Sel.Name == "Xor" {
 							nativeXor = true
+						}
+						// a helper method of the receiver that is handed a predicate over the values — the operand's
+						// Contains itself, or a function literal that returns it (negated or not) — and removes the
+						// receiver's values the predicate selects
+						if id, ok := ast.Unparen(sel.X).(*ast.Ident); ok && info.Uses[id] == recv && len(x.Args) == 1 {
+							if hd := methods[sel.Sel.Name]; hd != nil && removesWherePredicate(p, hd) {
+								m := 0
+								switch a := ast.Unparen(x.Args[0]).(type) {
+								case *ast.SelectorExpr:
+									if aid, ok := ast.Unparen(a.X).(*ast.Ident); ok && info.Uses[aid] == operand && a.Sel.Name == "Contains" {
+										m = 1
+									}
+								case *ast.FuncLit:
+									if len(a.Body.List) == 1 {
+										if rs, ok := a.Body.List[0].(*ast.ReturnStmt); ok && len(rs.Results) == 1 {
+											m = membership(rs.Results[0])
+										}
+									}
+								}
+								if m != 0 {
+									if m < 0 {
+										polarity = append(polarity, "remove-if-not-contained")
+									} else {
+										polarity = append(polarity, "remove-if-contained")
+									}
+									if top {
+										pos = x.Pos()
+									}
+								}
+							}
 						}
 						// a helper method called on the receiver with the operand among its arguments
 						if id, ok := ast.Unparen(sel.X).(*ast.Ident); ok && info.Uses[id] == recv && depth < 2 {
@@ -1005,4 +1047,94 @@ func rootIdent(e ast.Expr) *ast.Ident {
 			return nil
 		}
 	}
+}
+
+// normShape: the siblings may reach the same result in different ways — a fallback that is the right one for the
+// operation (judged by C13-R2-fallback) compares equal to any other right one.
+func normShape(method, shape string) string {
+	expected := map[string]string{"And": "remove-if-not-contained", "AndNot": "remove-if-contained", "Or": "add-each-of-operand", "Xor": "copy-then-native-xor"}[method]
+	if expected != "" {
+		shape = strings.ReplaceAll(shape, "fallback:"+expected, "fallback:ok")
+	}
+	return strings.ReplaceAll(shape, "fallback:copy-then-native", "fallback:ok")
+}
+
+// operandHelperOf: the same-package function whose first result fd passes to a method of its own bitmap.
+func operandHelperOf(p *packages.Package, fd *ast.FuncDecl, onOwnBitmap func(fd *ast.FuncDecl, e ast.Expr) bool) *ast.FuncDecl {
+	info := p.TypesInfo
+	decls := FuncDecls(p)
+	var out *ast.FuncDecl
+	ast.Inspect(fd.Body, func(n ast.Node) bool {
+		as, ok := n.(*ast.AssignStmt)
+		if !ok || len(as.Rhs) != 1 || len(as.Lhs) < 1 {
+			return true
+		}
+		call, ok := ast.Unparen(as.Rhs[0]).(*ast.CallExpr)
+		if !ok {
+			return true
+		}
+		fn := calleeOf(info, call)
+		if fn == nil || fn.Pkg() != p.Types {
+			return true
+		}
+		lid, ok := as.Lhs[0].(*ast.Ident)
+		if !ok {
+			return true
+		}
+		obj := info.ObjectOf(lid)
+		used := false
+		ast.Inspect(fd.Body, func(m ast.Node) bool {
+			if c2, ok := m.(*ast.CallExpr); ok {
+				if sel, ok := c2.Fun.(*ast.SelectorExpr); ok && onOwnBitmap(fd, sel.X) {
+					for _, a := range c2.Args {
+						if id, ok := ast.Unparen(a).(*ast.Ident); ok && info.Uses[id] == obj {
+							used = true
+						}
+					}
+				}
+			}
+			return true
+		})
+		if used {
+			out = decls[declKeyOf(fn)]
+		}
+		return true
+	})
+	return out
+}
+
+// removesWherePredicate: hd(pred) iterates the receiver's own values, asks pred about each, never adds to the
+// receiver's bitmap, and removes from it (Remove, RemoveRange, AndNot) — outside the iteration.
+func removesWherePredicate(p *packages.Package, hd *ast.FuncDecl) bool {
+	info := p.TypesInfo
+	if hd.Body == nil || hd.Type.Params == nil || len(hd.Type.Params.List) != 1 || len(hd.Type.Params.List[0].Names) != 1 {
+		return false
+	}
+	pred := info.Defs[hd.Type.Params.List[0].Names[0]]
+	if _, isFunc := pred.Type().Underlying().(*types.Signature); !isFunc {
+		return false
+	}
+	recv := recvObj(p, hd)
+	asksEach, removes, adds := false, false, false
+	ast.Inspect(hd.Body, func(n ast.Node) bool {
+		call, ok := n.(*ast.CallExpr)
+		if !ok {
+			return true
+		}
+		if id, ok := ast.Unparen(call.Fun).(*ast.Ident); ok && info.Uses[id] == pred {
+			asksEach = true
+		}
+		if sel, ok := call.Fun.(*ast.SelectorExpr); ok {
+			if root := rootIdent(sel.X); root != nil && info.Uses[root] == recv {
+				switch sel.Sel.Name {
+				case "Remove", "RemoveRange", "AndNot", "CheckedRemove":
+					removes = true
+				case "Add", "AddMany", "AddRange", "Or", "CheckedAdd":
+					adds = true
+				}
+			}
+		}
+		return true
+	})
+	return asksEach && removes && !adds
 }
